@@ -121,7 +121,8 @@ impl<'a> Ctx<'a> {
     /// returns).  Used where a non-terminating call lives in unhooked third-party code and would
     /// otherwise take the whole monitor down.
     pub fn probe_in_child(&self, mem_kb: u64, timeout_s: u64) -> Probe {
-        if self.probe {
+        if self.probe || cfg!(miri) {
+            // (the interpreter cannot start processes; its miniature cases are not the ones that hang)
             return Probe::Survived;
         }
         let exe = match std::env::current_exe() {
